@@ -103,6 +103,14 @@ func buildOptions(cfg *Cfg, mon imonitor.Monitor, sizes map[string]pg.Size) []au
 	if mon != nil {
 		opts = append(opts, autog.WithMonitor(mon))
 	}
+	// the options are independent setters: apply them in an order derived from the configuration,
+	// so that no property silently depends on one particular order
+	h := uint64(cfg.P1*7+cfg.P2*13+cfg.P4*31+cfg.P5*61+cfg.Thor*3) + uint64(len(cfg.NS))*17 + uint64(len(sizes))
+	r := &rng{s: h}
+	for i := len(opts) - 1; i > 0; i-- {
+		j := r.intn(i + 1)
+		opts[i], opts[j] = opts[j], opts[i]
+	}
 	return opts
 }
 
